@@ -1,2 +1,111 @@
--- stub: driver for C11 not written yet
-def main : IO Unit := pure ()
+import CMacVerif.Model.ExactRiemann
+import CMacVerif.Inst.Float
+import CMacVerif.Util.Bits
+/-!
+Line-protocol driver of C11: the `Float` instantiation of `Model/ExactRiemann.lean`.
+Doubles are decimal bit patterns.  Ops (the harness `harness/c11.cpp` answers the same lines
+with the real `ExactRiemannSolver`):
+
+* `consts g`                                   → the ten derived constants
+* `fb g rho P pstar`                           → `fb`, `fprimeb`, `gb` for one state
+* `guess g rhoL uL PL rhoR uR PR`              → `guess_P`
+* `brent g rhoL uL PL rhoR uR PR Plow Phigh`   → `solve_brent` on the real pressure function
+* `solve g rhoL uL PL rhoR uR PR dxdt`         → `flag rho u P`
+* `solvex …` = `solve` (the harness skips its reference oracle: out-of-domain extremes)
+* `waves g rhoL uL PL rhoR uR PR`              → (driver only) regime, p*, u*, all wave speeds
+-/
+open CMacVerif CMacVerif.Util CMacVerif.ExactRiemann
+
+/-- 2^-1024: largest double whose reciprocal is `inf` (see `Model/RiemannVacuum.lean`) -/
+def ovfThr : Float := Float.ofBits 0x0000400000000000
+
+def newtonFuel : Nat := 100000
+def brentFuel : Nat := 10000
+
+def fl (s : String) : Float := fOfBits (nat! s)
+
+def showSol (flag : Int) (s : Sol Float) : String :=
+  s!"{flag} {showF s.rho} {showF s.u} {showF s.P}"
+
+def starTags (o : Option (Star Float)) : String :=
+  match o with
+  | none => ""
+  | some s =>
+    let fuelTag := if s.res.newtonLeft == 0 then " NEWTON-FUEL-OUT" else ""
+    let errTag := if s.res.err then " BRENT-ERROR" else ""
+    let bfuel := if s.res.path == 2 && s.res.brentLeft == 0 then " brent-fuel-out" else ""
+    s!" guess{s.guessBr} path{s.res.path}{bfuel}{fuelTag}{errTag} pstar={showF s.pstar} ustar={showF s.ustar}"
+
+/-- the quantities the harness derives for one state exactly as `solve` does (lines 883–929) -/
+structure Side where
+  rhoinv : Float
+  Pinv : Float
+  a : Float
+  afac : Float
+  A : Float
+  B : Float
+  rhoainv : Float
+
+def side (c : Consts Float) (rho P : Float) : Side :=
+  let rhoinv := 1.0 / rho
+  let Pinv := 1.0 / P
+  let a := soundspeed c rhoinv P
+  ⟨rhoinv, Pinv, a, c.tdgm1 * a, c.tdgp1 * rhoinv, c.gm1dgp1 * P, 1.0 / (rho * a)⟩
+
+def doSolve (g rhoL uL PL rhoR uR PR x : String) : String :=
+  let r := solve ovfThr (fl g) newtonFuel brentFuel (fl rhoL) (fl uL) (fl PL) (fl rhoR) (fl uR) (fl PR) (fl x)
+  s!"{showSol r.1 r.2.1} #br{r.2.1.br}{starTags r.2.2}"
+
+def step (_ : Unit) : List String → Unit × String
+  | ["consts", g] =>
+    let c := mkConsts (fl g)
+    ((), s!"consts {showF c.gamma} {showF c.gp1d2g} {showF c.gm1d2g} {showF c.gm1dgp1} {showF c.tdgp1} {showF c.tdgm1} {showF c.gm1d2} {showF c.tgdgm1} {showF c.ginv} {showF c.gm1inv}")
+  | ["fb", g, rho, P, ps] =>
+    let c := mkConsts (fl g)
+    let x := side c (fl rho) (fl P)
+    let p := fl ps
+    let v := fb c (fl P) x.A x.B x.Pinv x.afac p
+    let d := fprimeb c (fl P) x.A x.B x.Pinv x.rhoainv p
+    let br := if fl P < p then "shock" else "rarefaction"
+    ((), s!"fb {showF v} {showF d} {showF (gb x.A x.B p)} #fb-{br}")
+  | ["guess", g, rhoL, uL, PL, rhoR, uR, PR] =>
+    let c := mkConsts (fl g)
+    let l := side c (fl rhoL) (fl PL)
+    let r := side c (fl rhoR) (fl PR)
+    let gp := guessPT c (fl PL) l.a l.A l.B (fl PR) r.a r.A r.B (fl uR - fl uL)
+    ((), s!"guess {showF gp.1} #guess{gp.2}")
+  | ["brent", g, rhoL, uL, PL, rhoR, uR, PR, lo, hi] =>
+    let c := mkConsts (fl g)
+    let l := side c (fl rhoL) (fl PL)
+    let r := side c (fl rhoR) (fl PR)
+    let F := f c (fl PL) l.A l.B l.Pinv l.afac (fl PR) r.A r.B r.Pinv r.afac (fl uR - fl uL)
+    let flo := F (fl lo)
+    let fhi := F (fl hi)
+    match solveBrent F brentFuel (fl lo) (fl hi) flo fhi with
+    | none => ((), "brent error #brent-error")
+    | some (p, left) => ((), s!"brent {showF p} #brent-iters-{(brentFuel - left).log2}")
+  | ["solve", g, rhoL, uL, PL, rhoR, uR, PR, x] => ((), doSolve g rhoL uL PL rhoR uR PR x)
+  | ["solvex", g, rhoL, uL, PL, rhoR, uR, PR, x] => ((), doSolve g rhoL uL PL rhoR uR PR x)
+  | ["waves", g, rhoL, uL, PL, rhoR, uR, PR] =>
+    let c := mkConsts (fl g)
+    let rhoL := fl rhoL; let uL := fl uL; let PL := fl PL
+    let rhoR := fl rhoR; let uR := fl uR; let PR := fl PR
+    let vL := RiemannVacuum.isVacuum ovfThr rhoL rhoL PL PL
+    let vR := RiemannVacuum.isVacuum ovfThr rhoR rhoR PR PR
+    let aL : Float := if vL then 0.0 else soundspeed c (1.0 / rhoL) PL
+    let aR : Float := if vR then 0.0 else soundspeed c (1.0 / rhoR) PR
+    let reg : Nat := if vL || vR then 0 else if c.tdgm1 * aL + c.tdgm1 * aR ≤ uR - uL then 1 else 2
+    if reg == 2 then
+      let s := star c newtonFuel brentFuel rhoL uL PL rhoR uR PR
+      let left := if PL < s.pstar then s!"LS {showF (shockSpeedL c uL s.aL (1.0 / PL) s.pstar)}"
+        else s!"LR {showF (headL uL s.aL)} {showF (tailL c s.aL (1.0 / PL) s.ustar s.pstar)}"
+      let right := if PR < s.pstar then s!"RS {showF (shockSpeedR c uR s.aR (1.0 / PR) s.pstar)}"
+        else s!"RR {showF (headR uR s.aR)} {showF (tailR c s.aR (1.0 / PR) s.ustar s.pstar)}"
+      ((), s!"waves 2 {showF s.pstar} {showF s.ustar} C {showF s.ustar} {left} {right}")
+    else
+      let l := if vL then "" else s!" LV {showF (uL - aL)} {showF (uL + c.tdgm1 * aL)}"
+      let r := if vR then "" else s!" RV {showF (uR + aR)} {showF (uR - c.tdgm1 * aR)}"
+      ((), s!"waves {reg} 0 0{l}{r}")
+  | _ => ((), "bad-op")
+
+def main : IO Unit := runDriver step ()
